@@ -18,7 +18,9 @@ b parser_h "-json5" --no-default-features --features json5
 b parser_h "-json-suppress" --no-default-features --features json,suppress
 for c in codegen_h runtime_h router_h ctx_h runtime_dyn_h build_h locale_h fmt_h; do b $c ""; done
 # ctx_h with reactive_graph's `effects` (Effect / RenderEffect run natively; C16 runs every sequence on both builds): own target dir
-b ctx_h "-effects" --no-default-features --features effects
+b ctx_h "-effects" --no-default-features --features effects,cookie
+# ctx_h against leptos_i18n WITHOUT its `cookie` feature (C15: no cookie is consulted by any kind of context)
+b ctx_h "-nocookie" --no-default-features
 # the code generator for the other two file formats (C09: what YAML / JSON5 can say and JSON cannot)
 CG="interpolate_display,plurals,format_datetime,format_list,format_nums,format_currency,icu_compiled_data,ssr"
 b codegen_h "-yaml_files" --no-default-features --features "yaml_files,$CG"
